@@ -1,7 +1,7 @@
 // drv_forces: one internal force term at a time (or all) on a real cell.
 // line: <tissue case with ONE cell> F term P NF {face type id} PRE k seed   (k random edge merges/splits first: leaves unused slots)
 //   term 0 pressure, 1 tension+elasticity, 2 bending, 3 angle regularisation, 4 apply_internal_forces(dt)
-// out : OK P V A | nodes {used x y z} | faces {a b c type} | edges {n1 n2 f1 f2} | forces {fx fy fz}
+// out : OK P V A | nodes {used x y z} | faces {a b c type} | edges {n1 n2 f1 f2} | forces {fx fy fz} [| forces after an in-place quarter turn about z]
 #include "tissue.hpp"
 #include "local_mesh_refiner.hpp"
 class cell_tester {
@@ -21,6 +21,7 @@ public:
         }
     }
     static int type_of(const face& f){ return f.type_id_; }
+    static void quarter_turn(cell_ptr c){ for (node& n : c->node_lst_) if (n.is_used()) n.pos_ = vec3(-n.pos().dy(), n.pos().dx(), n.pos().dz()); }
 };
 int main(){
     std::string line;
@@ -53,6 +54,15 @@ int main(){
             for (const edge& e : c->get_edge_set()) std::cout << " " << e.n1() << " " << e.n2() << " " << e.f1() << " " << e.f2();
             std::cout << " |";
             for (const node& n : c->get_node_lst()) std::cout << " " << hx(n.force().dx()) << " " << hx(n.force().dy()) << " " << hx(n.force().dz());
+            // the SAME cell object again after its nodes were turned by a quarter turn about z in place (exact in binary64):
+            // cached per-face data must not survive the move
+            if (term != 4){
+                cell_tester::quarter_turn(c);
+                cell_tester::prepare(c, P);
+                cell_tester::term(c, term, t.sp.time_step_);
+                std::cout << " |";
+                for (const node& n : c->get_node_lst()) std::cout << " " << hx(n.force().dx()) << " " << hx(n.force().dy()) << " " << hx(n.force().dz());
+            }
             std::cout << "\n";
         } catch (const std::exception& e){ std::cout << "EXC " << e.what() << "\n"; }
     }
